@@ -18,11 +18,16 @@
 EXTENDS Naturals, Sequences, FiniteSets, TLC
 CONSTANTS MaxThreads, MaxDumps,
           Limits,             \* the limits a caller may configure (0 = none), in cells
+          AuxCounts,          \* the numbers of modules / handles / link maps a scenario may have ({0, 1}; {1} where they do not matter)
+          OwnCtxWhenUnlisted, \* TRUE: with a crash context supplied and the blamed thread not in the list, the exception stream stores the supplied
+                              \* context itself; FALSE: its context location stays empty
           LimitConsumed,      \* TRUE: a dump lowers the writer's limit by what its stacks took; FALSE: it only reads it
           ResetOnDump,        \* TRUE: writer state reset at the start of dump(); FALSE: never reset
           PlaceByNamedIndex   \* thread-name slot function (see ThreadNames)
 NSlots == 8   \* thread list, modules, memory list, exception, system info, best-effort X (dso debug), thread names, handles
-VARIABLES threads,    \* this dump's scenario: Seq of [named : BOOLEAN, hasStack : BOOLEAN]
+VARIABLES withCtx,    \* this dump's scenario: a crash context is supplied
+          blamedListed, \* this dump's scenario: the blamed thread (thread 1) is in the thread list (not dropped at suspend)
+          threads,    \* this dump's scenario: Seq of [named : BOOLEAN, hasStack : BOOLEAN]
           appRegs,    \* 0..1 application regions
           nmods, nhandles, ndsos,
           xFails,     \* best-effort stream X fails softly in this dump
@@ -34,7 +39,7 @@ VARIABLES threads,    \* this dump's scenario: Seq of [named : BOOLEAN, hasStack
           limit,      \* writer-persistent: the size limit in force (0 = none)
           callerLimit,\* what the caller configured (never touched by the model's writer: the yardstick)
           softErrs, dumpNo, pc
-vars == <<threads, appRegs, nmods, nhandles, ndsos, xFails, len, objs, dir, memBlocks, crashCtx, limit, callerLimit, softErrs, dumpNo, pc>>
+vars == <<withCtx, blamedListed, threads, appRegs, nmods, nhandles, ndsos, xFails, len, objs, dir, memBlocks, crashCtx, limit, callerLimit, softErrs, dumpNo, pc>>
 KeepFull == 1        \* the first KeepFull threads always keep their whole stack (20 in the code)
 FullStack == 2       \* cells of a whole stack; a shortened one has 1
 NStacks(ths) == Cardinality({i \in 1..Len(ths) : ths[i].hasStack})
@@ -43,8 +48,9 @@ Shortens(ths, lim) == lim # 0 /\ FullStack * NStacks(ths) > lim
 StackLen(ths, i, lim) == IF i > KeepFull /\ Shortens(ths, lim) THEN 1 ELSE FullStack
 NoCtx == [off |-> 0, len |-> 0, dump |-> 0]
 Scenario == /\ threads' \in UNION {[1..n -> [named : BOOLEAN, hasStack : BOOLEAN]] : n \in 1..MaxThreads}
-            /\ appRegs' \in 0..1 /\ xFails' \in BOOLEAN /\ nmods' \in 0..1 /\ nhandles' \in 0..1 /\ ndsos' \in 0..1
-Init == /\ threads = <<>> /\ appRegs = 0 /\ nmods = 0 /\ nhandles = 0 /\ ndsos = 0 /\ xFails = FALSE /\ len = 0 /\ objs = {} /\ dir = <<>>
+            /\ withCtx' \in BOOLEAN /\ blamedListed' \in BOOLEAN
+            /\ appRegs' \in 0..1 /\ xFails' \in BOOLEAN /\ nmods' \in AuxCounts /\ nhandles' \in AuxCounts /\ ndsos' \in AuxCounts
+Init == /\ withCtx = FALSE /\ blamedListed = TRUE /\ threads = <<>> /\ appRegs = 0 /\ nmods = 0 /\ nhandles = 0 /\ ndsos = 0 /\ xFails = FALSE /\ len = 0 /\ objs = {} /\ dir = <<>>
         /\ memBlocks = <<>> /\ crashCtx = NoCtx /\ softErrs = {} /\ dumpNo = 0 /\ pc = "idle"
         /\ limit \in Limits /\ callerLimit = limit
 Begin == /\ pc = "idle" /\ dumpNo < MaxDumps /\ Scenario
@@ -59,7 +65,7 @@ Place(items, base) == IF items = <<>> THEN {} ELSE
       {[k |-> Head(items).k, off |-> base, len |-> Head(items).len, own |-> Head(items).own]} \cup Place(Tail(items), base + Head(items).len)
 RECURSIVE Sum(_)
 Sum(items) == IF items = <<>> THEN 0 ELSE Head(items).len + Sum(Tail(items))
-Keep == <<threads, appRegs, nmods, nhandles, ndsos, xFails, dumpNo, callerLimit>>
+Keep == <<withCtx, blamedListed, threads, appRegs, nmods, nhandles, ndsos, xFails, dumpNo, callerLimit>>
 ThreadList ==    \* thread_list_stream::write: header+array, then per thread (stack), context
   /\ pc = "threads"
   /\ LET n == Len(threads)
@@ -75,7 +81,9 @@ ThreadList ==    \* thread_list_stream::write: header+array, then per thread (st
         /\ dir' = Append(dir, [ty |-> 3, off |-> len, len |-> 1 + n])
         /\ memBlocks' = memBlocks \o [j \in 1..Cardinality(stacks) |-> [off |-> ord[j].off, len |-> ord[j].len, dump |-> dumpNo]]
         /\ limit' = IF LimitConsumed /\ limit # 0 THEN (IF limit > Sum(flat) THEN limit - Sum(flat) ELSE 1) ELSE limit
-        /\ crashCtx' = LET c == CHOOSE o \in placed : o.k = "ctx" /\ o.own = 1 IN [off |-> c.off, len |-> 1, dump |-> dumpNo]   \* blamed = thread 1
+        /\ crashCtx' = IF blamedListed      \* blamed = thread 1; when it is not listed nothing is recorded here
+                         THEN LET c == CHOOSE o \in placed : o.k = "ctx" /\ o.own = 1 IN [off |-> c.off, len |-> 1, dump |-> dumpNo]
+                         ELSE crashCtx
   /\ pc' = "modules" /\ UNCHANGED <<Keep, softErrs>>
 Modules ==       \* mappings::write: per module cv record, name string; then header+array
   /\ pc = "modules"
@@ -101,8 +109,13 @@ MemList ==       \* memory_list_stream::write: header + every descriptor in memo
   /\ pc' = "exception" /\ UNCHANGED <<Keep, memBlocks, crashCtx, softErrs, limit>>
 Exception ==     \* exception_stream::write: record pointing at the crashing-thread context
   /\ pc = "exception"
-  /\ objs' = objs \cup {[k |-> "s:exception", off |-> len, len |-> 1, own |-> 0], [k |-> "excctx", off |-> crashCtx.off, len |-> crashCtx.len, own |-> 0]}
-  /\ dir' = Append(dir, [ty |-> 6, off |-> len, len |-> 1]) /\ len' = len + 1
+  /\ IF crashCtx.len = 0 /\ withCtx /\ OwnCtxWhenUnlisted
+       THEN \* no thread entry carries the supplied context: it is stored here, then the record
+            /\ objs' = objs \cup {[k |-> "ctx", off |-> len, len |-> 1, own |-> 0], [k |-> "excctx", off |-> len, len |-> 1, own |-> 0],
+                                  [k |-> "s:exception", off |-> len + 1, len |-> 1, own |-> 0]}
+            /\ dir' = Append(dir, [ty |-> 6, off |-> len + 1, len |-> 1]) /\ len' = len + 2
+       ELSE /\ objs' = objs \cup {[k |-> "s:exception", off |-> len, len |-> 1, own |-> 0], [k |-> "excctx", off |-> crashCtx.off, len |-> crashCtx.len, own |-> 0]}
+            /\ dir' = Append(dir, [ty |-> 6, off |-> len, len |-> 1]) /\ len' = len + 1
   /\ pc' = "sysinfo" /\ UNCHANGED <<Keep, memBlocks, crashCtx, softErrs, limit>>
 SysInfo ==       \* systeminfo_stream::write: record allocated first, then the OS version string
   /\ pc = "sysinfo"
@@ -167,7 +180,12 @@ C11 == AtReturn => /\ (softErrs = {}) <=> ~xFails
 C19 == AtReturn =>
    /\ \A j \in 1..Len(memBlocks) : memBlocks[j].dump = dumpNo
    /\ Len(memBlocks) = Cardinality({i \in 1..Len(threads) : threads[i].hasStack}) + appRegs
-   /\ crashCtx.dump = dumpNo
+   /\ (blamedListed => crashCtx.dump = dumpNo) /\ (~blamedListed => crashCtx = NoCtx)
+   \* C05: with a crash context the exception record points at a context (the blamed thread's entry's when it is listed); without one
+   \* and without the thread there is none
+   /\ \A x \in {o \in objs : o.k = "excctx"} : /\ (withCtx \/ blamedListed) => x.len = 1
+                                               /\ (~withCtx /\ ~blamedListed) => x.len = 0
+                                               /\ blamedListed => \E b \in objs : b.k = "ctx" /\ b.own = 1 /\ b.off = x.off
    \* the caller's settings are as the caller left them, and this image's stacks are those a fresh writer with these settings takes
    /\ limit = callerLimit
    /\ \A o \in {x \in objs : x.k = "stack"} : o.len = StackLen(threads, o.own, callerLimit)
